@@ -865,3 +865,33 @@ func verif_XTCPProxy_Close(pxy *XTCPProxy) {
 		verif.Ensures(verif.CalledWith("nathole.Controller).CloseClient", 1, name), "nat_hole_registration_withdrawn_under_its_own_name")
 	}
 }
+
+// XTCPProxy.Run, the sid forwarder (one arbitrary iteration; C20 "the owner is
+// told the session id", C16 "no input or interleaving crashes frps" - a signed
+// visitor request can arrive while the owner has no work connection to give):
+// a session id is written to the work connection obtained for it and that
+// connection is closed afterwards; when no work connection could be obtained
+// the id is dropped - nothing is written to, and nothing is closed through, a
+// connection that does not exist.
+//
+//verif:loopbody (*~/server/proxy.XTCPProxy).Run$1 1 check=verifSidForwarded
+func verifSidForwarded() bool {
+	const evW, evC = "pkg/msg.WriteMsg", "net.Conn).Close"
+	if !verif.CalledInIter(evPoolConn) {
+		return !verif.CalledInIter(evW) && !verif.CalledInIter(evC)
+	}
+	if verif.IterRet[error](evPoolConn, 1) != nil {
+		return !verif.CalledInIter(evW) && !verif.CalledInIter(evC)
+	}
+	wc := verif.IterRet[net.Conn](evPoolConn, 0)
+	return verif.CalledInIter(evW) && verif.Same(verif.IterArg[any](evW, 0), any(wc)) &&
+		verif.CalledWithInIter(evC, 0, wc)
+}
+
+//verif:contract (*~/server/proxy.XTCPProxy).Run$1
+//verif:props C20 C16
+//verif:kinds loop,post,pre
+func verif_XTCPProxy_sid_forwarder() {
+	verif.ResetEvents()
+	verif.CallTarget()
+}
